@@ -5,7 +5,7 @@ from pbt.hoofam import simplify  # noqa: F401
 PROP = "C05"
 RULE = (
     "cases = {T_HOO, HCT, VHCT} x partition x K x d x box x (nu, rho, c, delta, bound, rounds) in the documented ranges with "
-    "the delta~ caps inactive x reward laws (peak/bump + noise dominate: evolving, untied B-values) x T. After every round, from "
+    "delta up to 0.99 (rounds in which a delta~ cap of the code can still be active are not judged) x reward laws (peak/bump + noise dominate: evolving, untied B-values) x T. After every round, from "
     "the ledger only: (a) U rule - unvisited cells have U = inf, otherwise U == mean + nu rho^h + published width for an admissible "
     "t+ (T-HOO: sqrt(2 ln n / T); HCT/VHCT: t+ of a round since the later of the cell's last pull and the last power of two), rel "
     "1e-9; (b) B rule on every non-root cell, exact: leaf B == U, internal B == min(U, max children B); (c) path rule for every "
@@ -16,7 +16,7 @@ RULE = (
     ">= 2 descent steps whose siblings had distinct finite B-values, and (HCT/VHCT) >= 1 refresh round; distinct = SHA-1 of the case."
 )
 ASSUMPTIONS = [
-    "HCT/VHCT parameters satisfy c1*delta <= 1/2 so that neither of the two delta~ caps the code applies is active (DESIGN 2.2)",
+    "the code caps delta~ at 1/2 in the thresholds and at 1 in the U-values; rounds (and stored values) whose t+ is below 2 c1 delta are not judged",
     "the root's B-value is exempt (never read by any decision)",
     "the lazy schedule of the published algorithm makes several t+ admissible for a cell; any of them is accepted",
 ]
